@@ -108,9 +108,14 @@ func (f *Divide) Call(s *slip.Scope, args slip.List, depth int) (quot slip.Objec
 			if ta == 0 {
 				slip.DivisionByZeroPanic(s, depth, slip.Symbol("/"), args, "divide by zero")
 			}
-			if quot.(slip.Fixnum)%ta == 0 {
+			switch {
+			case ta == -1:
+				// Not a division as the most negative fixnum divided by -1
+				// is not a fixnum.
+				quot = subFixnums(0, quot.(slip.Fixnum))
+			case quot.(slip.Fixnum)%ta == 0:
 				quot = quot.(slip.Fixnum) / ta
-			} else {
+			default:
 				quot = (*slip.Ratio)(big.NewRat(int64(quot.(slip.Fixnum)), int64(ta)))
 			}
 		case slip.SingleFloat:
